@@ -354,4 +354,33 @@ def withInner (call : Call) (groups : List Group) (skip : Comp → Bool) (innerO
       | none => (c, ok) :: withInner call groups skip innerOk st' rest
     | none => (c, ok) :: withInner call groups skip innerOk st rest
 
+/-! ## several service lifetimes in one process over one persistent `sharedcomponent.Map`
+
+A factory may keep its `sharedcomponent.Map` for the life of the process (the otlp receiver does).  `LoadOrStore`
+returns the wrapper stored under the key or stores a fresh one; the wrapper's first `Shutdown` (inside `stopOnce`,
+whatever the inner `Shutdown` returns) removes it from the map (`removeFunc`). -/
+
+/-- state of a wrapper after a sequence of instance calls -/
+def Shared.after (s : Shared) (calls : List Call) : Shared := calls.foldl (fun st c => (st.step c).1) s
+
+/-- one service lifetime seen from one key of the map: the entry before, the instance calls of this lifetime ↦ the entry
+after and the calls that reached the inner component -/
+def mapLifetime (entry : Option Shared) (calls : List Call) : Option Shared × List Call :=
+  let sh := entry.getD {}                       -- LoadOrStore
+  let fin := sh.after calls
+  (if fin.stopped then none else some fin, sh.runCalls calls)   -- removeFunc runs inside stopOnce
+
+/-- the inner calls of each of several consecutive lifetimes -/
+def mapLifetimes : Option Shared → List (List Call) → List (List Call)
+  | _, [] => []
+  | entry, calls :: rest => (mapLifetime entry calls).2 :: mapLifetimes (mapLifetime entry calls).1 rest
+
+/-- consecutive service lifetimes in one process -/
+structure LifetimeIn where
+  sys : Sys
+  failS : Comp → Bool
+  failT : Comp → Bool
+
+def lifetimes (ls : List LifetimeIn) : List Outcome := ls.map (fun l => lifetime l.sys l.failS l.failT)
+
 end OtelVerif.C10
